@@ -216,12 +216,16 @@ def default_planting(rng, name, wfile):
     return md(rng.choice([3, 4, 5, 6]), rng.choice([1, 10, 15, 25]))
 
 
+YLDWC0 = [k for k, v in crop_params.items() if not v.get("YldWC")]
+
+
 def gen_config(rng, **force):
     """one random valid configuration; `force` overrides switches:
     crop, soil_type, method, seasons, off_season, gw, bunds, mulches, wfile"""
     wfile = force.get("wfile") or rng.choice(WEATHER_FILES)
     w0, w1 = weather_range(wfile)
-    crop = force.get("crop") or rng.choice(CROPS)
+    strict = force.get("strict", True)     # strict: stay away from the triggers of the known findings
+    crop = force.get("crop") or rng.choice([c for c in CROPS if not (strict and c in YLDWC0)])
     plant = force.get("planting") or default_planting(rng, crop, wfile)
     seasons = force.get("seasons") or rng.choice([1, 1, 2, 3])
     y0 = rng.randint(w0.year + 1, max(w0.year + 1, w1.year - seasons - 2))
@@ -236,6 +240,8 @@ def gen_config(rng, **force):
         start = pdate + pd.Timedelta(days=rng.choice([1, 5, 40]))
     length = crop_length_days(crop)
     end_mode = force.get("end_mode") or rng.choice(["after", "after", "after", "mid"])
+    if crop_params[crop].get("CalendarType") == 2 and "end_mode" not in force and rng.random() < 0.8:
+        end_mode = "after"
     nseas = seasons + (1 if start_mode == "after" else 0)
     last_p = pd.Timestamp(year=y0 + nseas - 1, month=pm, day=pd_)
     if end_mode == "after":
@@ -281,16 +287,19 @@ def gen_config(rng, **force):
             if st == "texture":
                 sand = rng.choice([10, 20, 40, 60, 85]); clay = rng.choice([5, 10, 20, 35, 50])
                 if sand + clay > 95: clay = 95 - sand
-                lay.append([th, sand, clay, rng.choice([0.5, 1.5, 2.5, 4.0]), rng.choice([100, 100, 60, 30])])
+                lay.append([th, sand, clay, rng.choice([0.5, 1.5, 2.5, 4.0]), 100 if strict else rng.choice([100, 100, 60, 30])])
             else:
                 wp = round(rng.uniform(0.05, 0.35), 2); fc = round(wp + rng.uniform(0.06, 0.2), 2)
                 s = round(fc + rng.uniform(0.03, 0.2), 2)
-                lay.append([th, wp, fc, s, float(rng.choice([2, 15, 100, 500, 1200, 3000])), rng.choice([100, 100, 50, 20])])
+                lay.append([th, wp, fc, s, float(rng.choice([2, 15, 100, 500, 1200, 3000])), 100 if strict else rng.choice([100, 100, 50, 20])])
         soil["texture_layers" if st == "texture" else "layers"] = lay
         soil["kwargs"]["cn"] = rng.choice([46, 61, 72, 77, 90])
         soil["kwargs"]["rew"] = rng.choice([4, 9, 14])
     elif rng.random() < 0.25 and st not in ("ac_TunisLocal",):
         soil["dz"] = rng.choice([[0.1] * 12, [0.05] * 6 + [0.1] * 9 + [0.2] * 2, [0.15] * 10, [0.1] * 20, [0.2] * 8])
+        zmax = crop_params[crop].get("Zmax", 1.7)
+        if strict and sum(min(0.3, math.ceil((0.25 - x) / 0.1 - 1e-9) * 0.1 + x) if x < 0.25 else x for x in soil["dz"]) < zmax + 0.1:
+            soil["dz"] = [0.1] * 12
     if rng.random() < 0.3:
         soil["kwargs"]["z_cn"] = rng.choice([0.05, 0.15, 0.25, 0.3, 0.35, 0.55])
     if rng.random() < 0.2:
@@ -353,6 +362,12 @@ def gen_config(rng, **force):
     if rng.random() < 0.1: fld["sr_inhb"] = True
     if rng.random() < 0.15:
         fld.update(curve_number_adj=True, curve_number_adj_pct=rng.choice([-20, -5, 10, 20]))
+        cn_now = soil["kwargs"].get("cn", {"Clay": 77, "ClayLoam": 72, "Default": 61, "Loam": 61, "LoamySand": 46, "Sand": 46, "SandyClay": 77,
+                                            "SandyClayLoam": 72, "SandyLoam": 46, "Silt": 61, "SiltClayLoam": 72, "SiltLoam": 61,
+                                            "SiltClay": 72, "Paddy": 77, "ac_TunisLocal": 72}.get(soil["type"], 61))
+        if soil["kwargs"].get("calc_cn"): cn_now = 77
+        if cn_now * (1 + fld["curve_number_adj_pct"] / 100.0) > 100:
+            fld["curve_number_adj_pct"] = 10
     cfg["field"] = fld or None
     cfg["fallow_field"] = ({"mulches": True, "mulch_pct": 60, "f_mulch": 0.5} if rng.random() < 0.1 else None)
     # groundwater
